@@ -29,15 +29,56 @@ pub fn generate(seed: u64, tier: Tier) -> Scenario {
     Scenario { inner }
 }
 
-/// Small scenarios for the Miri leg (Miri is ~1000x slower than native).
+/// Small scenarios for the Miri leg (Miri is ~1000x slower than native): tiny valid programs that
+/// reach the `unsafe` regions C02 names (subgrid split/merge/into_groups at odd sizes, bitstream
+/// refill at buffer tails, squeeze / RCT / palette at widths 1..24, parallel tasks on raw-pointer
+/// subgrids with a real 2-thread pool), unfaulted or with one storage fault.
 pub fn generate_small(seed: u64) -> Option<Scenario> {
-    let sc = generate(seed, Tier::Quick);
-    let small_origin = sc.inner.origin.starts_with("jxlgen") || sc.inner.origin.starts_with("regression") || sc.inner.origin == "random";
-    if sc.inner.bytes.len() <= 1500 && small_origin && sc.inner.steps.len() <= 80 {
-        Some(sc)
-    } else {
-        None
+    use crate::jxlgen::random::{GenConfig, random_program};
+    use crate::simio::StorageFault;
+    let mut rng = Rng::new(derive(seed, 22, 0));
+    let cfg = GenConfig { max_dim: 20, max_frames: 2, max_pixels: 20 * 16, multi_group: false, noise: false, safe: true, ..GenConfig::small() }.swarm(&mut rng);
+    let prog = random_program(&mut rng, &cfg);
+    let (mut bytes, map) = prog.encode().ok()?;
+    if bytes.len() > 2500 {
+        return None;
     }
+    let mut faults = Vec::new();
+    if rng.chance(1, 3) {
+        let regions: Vec<(usize, usize)> = map.frames.iter().flat_map(|f| f.sections.iter().map(|&(o, s)| (o, o + s))).collect();
+        let f = StorageFault::random(&mut rng, bytes.len(), &regions);
+        if f.apply(&mut bytes) {
+            faults.push(f.kind().to_string());
+        }
+    }
+    let len = bytes.len();
+    let cut = rng.below(len as u64 + 1) as usize;
+    let mut steps = vec![c01::Step::Deliver(cut), c01::Step::Op(c01::Op::TryInit)];
+    if rng.chance(1, 2) {
+        steps.push(c01::Step::Op(c01::Op::RenderLoading));
+    }
+    steps.push(c01::Step::Deliver(len - cut));
+    steps.push(c01::Step::Op(c01::Op::TryInit));
+    steps.push(c01::Step::Op(c01::Op::Finalize));
+    steps.push(c01::Step::Op(c01::Op::RenderAll));
+    steps.push(c01::Step::Op(c01::Op::RenderAccessors(0, *rng.pick(&[1usize, 3, 7]))));
+    if rng.chance(1, 2) {
+        steps.push(c01::Step::Op(c01::Op::SetRegion(rng.below(8) as u32, rng.below(8) as u32, 1 + rng.below(8) as u32, 1 + rng.below(8) as u32)));
+        steps.push(c01::Step::Op(c01::Op::Render(0)));
+    }
+    let inner = c01::Scenario {
+        bytes,
+        origin: format!("jxlgen-small:{}", crate::checks::common::program_shape(&prog)),
+        faults,
+        delivery: c01::Delivery::Feed,
+        steps,
+        alloc_limit: 64 << 20,
+        keep_feeding_after_error: false,
+        dim_cap: 65536,
+        pool_threads: if rng.chance(1, 2) { 2 } else { 0 },
+        force_wide: rng.chance(1, 3),
+    };
+    Some(Scenario { inner })
 }
 
 pub fn digest(sc: &Scenario) -> u64 {
